@@ -394,6 +394,7 @@ macro_rules! gen_builder {
           | Op::ConcatMap(_)
           | Op::GroupByFlat(_) => $flat!(b, op, cx, build, $B),
           Op::Delay(d) => b.$delay(ms(*d), cx.sched.clone()).box_it(),
+          Op::DelayUs(d) => b.$delay(Duration::from_micros(*d), cx.sched.clone()).box_it(),
           Op::DelayAt(at) => b.$delay_at(instant_at(cx.base, *at), cx.sched.clone()).box_it(),
           Op::DelaySubscription(d) => b.delay_subscription(ms(*d), cx.sched.clone()).box_it(),
           Op::DelaySubscriptionAt(at) => {
